@@ -269,11 +269,15 @@ def addr_of(nc, table):
     return base + [norm_ref(parent, ref)]
 
 
-def gather(j, path, mode):
+def gather(j, path, mode, twin=None):
     """Matched addresses of `path` on a twin of the document.  Returns
-    ("ok", addrs-or-(addr,is_name) list) | ("err", class, site) | ("impure",) | ("oom", why)."""
+    ("ok", addrs-or-(addr,is_name) list) | ("err", class, site) | ("impure",) | ("oom", why).
+    `twin`: a ready-made twin whose canonical form is `j` (histories pass a deep copy of the living document: the
+    canonical form does not tell ruamel's ScalarInt / quoted-string objects, which earlier steps leave behind, from the
+    plain int / str that `build` makes, and Searches compares the two kinds differently)."""
     from yamlpath import Processor
-    twin = build(j)
+    if twin is None:
+        twin = build(j)
     table = codec.build_addr_table(twin)
     proc = Processor(core.quiet_logger(), twin)
     res = guarded(lambda: list(proc.get_nodes(path, mustexist=True)))
